@@ -182,3 +182,44 @@ Theorem C15_pyramid_include :
       forall z x y, In_pyr p z x y \/ In_pyr q z x y -> In_pyr r z x y.
 Proof. exact py_include_pyramid_spec. Qed.
 Print Assumptions C15_pyramid_include.
+
+(* ---- geographic bounds <-> tile box: the discrete stage of from_geo, per axis ---- *)
+Require Import ZArith.
+From VT Require Import Model.Geo Proofs.GeoProofs.
+Lemma C15_gen_geo_guard : geo_guard_variant = 1.  Proof. reflexivity. Qed.
+
+(* every pair of real tile coordinates gives a non-empty range inside the level *)
+Theorem C15_geo_axis_nonempty : forall S G n uw ue, (1 <= n)%Z ->
+  let '(a, b) := axis_box geo_guard_variant S G n uw ue in (0 <= a /\ a <= b /\ b <= n - 1)%Z.
+Proof. exact (axis_box_nonempty geo_guard_variant). Qed.
+Print Assumptions C15_geo_axis_nonempty.
+
+(* box -> bounds -> box is the identity, also when the coordinates come back perturbed by less
+   than the guard (S sub-units per tile, guard G with 2G <= S) *)
+Theorem C15_geo_roundtrip : forall S G n a b e1 e2, (0 < S)%Z -> (0 <= G)%Z -> (2 * G <= S)%Z ->
+  (0 <= a)%Z -> (a <= b)%Z -> (b <= n - 1)%Z ->
+  (- G <= e1 < S - G)%Z -> (G - S <= e2 < G)%Z ->
+  axis_box geo_guard_variant S G n (a * S + e1) ((b + 1) * S + e2) = (a, b).
+Proof. exact axis_roundtrip. Qed.
+Print Assumptions C15_geo_roundtrip.
+
+Theorem C15_geo_roundtrip_refuted_without_guard :
+  axis_box 0 1000000 1 16 (1 * 1000000 - 1) (2 * 1000000 - 1) = (0%Z, 1%Z).
+Proof. exact axis_roundtrip_refuted_without_guard. Qed.
+
+(* the range covers the box up to the guard, and reaches no further than the guarded bounds *)
+Theorem C15_geo_covers : forall S G n uw ue i, (0 < S)%Z -> (0 <= G)%Z -> (1 <= n)%Z ->
+  (0 <= i <= n - 1)%Z -> (uw + G < (i + 1) * S)%Z -> (i * S <= ue - G)%Z ->
+  let '(a, b) := axis_box geo_guard_variant S G n uw ue in (a <= i <= b)%Z.
+Proof. exact (axis_covers geo_guard_variant). Qed.
+Print Assumptions C15_geo_covers.
+
+Theorem C15_geo_tight : forall S G n uw ue i, (0 < S)%Z -> (0 <= G)%Z ->
+  (0 <= uw + G)%Z -> (uw + G < n * S)%Z -> (0 <= ue - G)%Z -> (ue - G < n * S)%Z ->
+  let '(a, b) := axis_box geo_guard_variant S G n uw ue in
+  (a <= i <= b)%Z -> (i * S <= Z.max (uw + G) (ue - G) /\ Z.min (uw + G) (ue - G) < (i + 1) * S)%Z.
+Proof. exact axis_tight. Qed.
+Print Assumptions C15_geo_tight.
+
+Example C15_geo_example : axis_box geo_guard_variant 1000000 1 16 3999999 8000000 = (4%Z, 7%Z).
+Proof. reflexivity. Qed.
